@@ -162,9 +162,8 @@ Definition flush (o : outst) : outst :=
   | [] => o
   | s => mkOut (render_line s :: o_lines o) [] (o_fs o)
   end.
-(* an error interrupts the line: it is delivered only if it was already complete *)
-Definition flush_on_error (o : outst) : outst :=
-  if ends_in_nl (o_cur o) then mkOut (o_lines (commit o)) [] (o_fs o) else mkOut (o_lines o) [] (o_fs o).
+(* an error interrupts the line: what was written so far is still observable (current text) *)
+Definition flush_on_error (o : outst) : outst := flush o.
 
 Definition fn_enter (o : outst) : outst := mkOut (o_lines o) (o_cur o) (Some (length (o_cur o)) :: o_fs o).
 Definition fn_leave (o : outst) : outst :=
@@ -202,6 +201,7 @@ Record state := mkState {
   st_globals : list (text * val);
   st_visits : list (text * Z);
   st_turnidx : list (text * Z);
+  st_trace : list text;                (* ghost: every entry counted by [visit], newest first *)
   st_turn : Z;
   st_seqs : list (nat * nat);
   st_chosen : list nat;
@@ -213,30 +213,30 @@ Record state := mkState {
 }.
 
 Definition set_out (st : state) (o : outst) : state :=
-  mkState (st_globals st) (st_visits st) (st_turnidx st) (st_turn st) (st_seqs st) (st_chosen st)
+  mkState (st_globals st) (st_visits st) (st_turnidx st) (st_trace st) (st_turn st) (st_seqs st) (st_chosen st)
           (st_threads st) (st_choices st) o (st_safe st) (st_status st).
 Definition set_globals (st : state) (g : list (text * val)) : state :=
-  mkState g (st_visits st) (st_turnidx st) (st_turn st) (st_seqs st) (st_chosen st)
+  mkState g (st_visits st) (st_turnidx st) (st_trace st) (st_turn st) (st_seqs st) (st_chosen st)
           (st_threads st) (st_choices st) (st_out st) (st_safe st) (st_status st).
 Definition set_seqs (st : state) (s : list (nat * nat)) : state :=
-  mkState (st_globals st) (st_visits st) (st_turnidx st) (st_turn st) s (st_chosen st)
+  mkState (st_globals st) (st_visits st) (st_turnidx st) (st_trace st) (st_turn st) s (st_chosen st)
           (st_threads st) (st_choices st) (st_out st) (st_safe st) (st_status st).
 Definition set_threads (st : state) (t : list (list frame)) : state :=
-  mkState (st_globals st) (st_visits st) (st_turnidx st) (st_turn st) (st_seqs st) (st_chosen st)
+  mkState (st_globals st) (st_visits st) (st_turnidx st) (st_trace st) (st_turn st) (st_seqs st) (st_chosen st)
           t (st_choices st) (st_out st) (st_safe st) (st_status st).
 Definition set_choices (st : state) (c : list pchoice) : state :=
-  mkState (st_globals st) (st_visits st) (st_turnidx st) (st_turn st) (st_seqs st) (st_chosen st)
+  mkState (st_globals st) (st_visits st) (st_turnidx st) (st_trace st) (st_turn st) (st_seqs st) (st_chosen st)
           (st_threads st) c (st_out st) (st_safe st) (st_status st).
 Definition set_status (st : state) (s : status) : state :=
-  mkState (st_globals st) (st_visits st) (st_turnidx st) (st_turn st) (st_seqs st) (st_chosen st)
+  mkState (st_globals st) (st_visits st) (st_turnidx st) (st_trace st) (st_turn st) (st_seqs st) (st_chosen st)
           (st_threads st) (st_choices st) (st_out st) (st_safe st) s.
 Definition set_safe (st : state) (b : bool) : state :=
-  mkState (st_globals st) (st_visits st) (st_turnidx st) (st_turn st) (st_seqs st) (st_chosen st)
+  mkState (st_globals st) (st_visits st) (st_turnidx st) (st_trace st) (st_turn st) (st_seqs st) (st_chosen st)
           (st_threads st) (st_choices st) (st_out st) b (st_status st).
 (* entering a knot / stitch / labelled gather / chosen labelled choice: read count and turn index *)
 Definition visit (name : text) (st : state) : state :=
   mkState (st_globals st) (upsert name (zcount name (st_visits st) + 1)%Z (st_visits st))
-          (upsert name (st_turn st) (st_turnidx st)) (st_turn st) (st_seqs st) (st_chosen st)
+          (upsert name (st_turn st) (st_turnidx st)) (name :: st_trace st) (st_turn st) (st_seqs st) (st_chosen st)
           (st_threads st) (st_choices st) (st_out st) (st_safe st) (st_status st).
 Definition emit (k : otok) (st : state) : state := set_out st (push k (st_out st)).
 
@@ -579,7 +579,7 @@ Definition take_choice (st : state) (pc : pchoice) (player : bool) : state :=
   match pc_stack pc with
   | [] => fail st (T "other")
   | fr :: below =>
-      let st1 := mkState (st_globals st) (st_visits st) (st_turnidx st)
+      let st1 := mkState (st_globals st) (st_visits st) (st_turnidx st) (st_trace st)
                          (if player then (st_turn st + 1)%Z else st_turn st) (st_seqs st)
                          (c_id c :: st_chosen st)
                          [with_cont fr (chosen_stmts c ++ f_cont fr) :: below] [] (st_out st) false Running in
@@ -747,7 +747,7 @@ Definition literal_val (e : expr) : val :=
   match e with EInt z => VI z | EBool b => VB b | EStr s => VS s | _ => VVoid end.
 
 Definition initial (p : program) : state :=
-  mkState (map (fun g => (fst g, literal_val (snd g))) (p_globals p)) [] [] 0%Z [] []
+  mkState (map (fun g => (fst g, literal_val (snd g))) (p_globals p)) [] [] [] 0%Z [] []
           [[mkFrame FMain (p_top p ++ [SDivert TDone]) [] []]] [] out_empty false Running.
 
 Definition visible_choices (st : state) : list pchoice :=
